@@ -84,6 +84,7 @@ mod native {
         let mut client = TrackerClient::new(&own_id, m, tx);
         let job = tokio::spawn(async move { client.run().await });
         let (want_path, want_query) = match tail.find('?') { Some(p) => (&tail[..p], &tail[p + 1..]), None => (tail, "") };
+        let want_path = if want_path.is_empty() { "/" } else { want_path };   // an announce URL without a path is requested as "/"
         for attempt in 0..2 {
             let (mut sock, _) = time::timeout(Duration::from_secs(20), listener.accept()).await.expect("no announce arrived").unwrap();
             let mut buf = vec![];
@@ -129,6 +130,8 @@ mod native {
             announce_case("/announce?passkey=abc&support=1", *b"a1b2c3d4e5f6g7h8i9j0", 1).await;
             announce_case("/Tracker/Announce.php?left=me&port=x", *b"zzzzzzzzzzZZZZZZZZZZ", 4294967296).await;
             announce_case("/a", *b"00000000000000000000", 64).await;
+            announce_case("", *b"AAAAABBBBBCCCCC12345", 150).await;
+            announce_case("?passkey=abc", *b"AAAAABBBBBCCCCC12345", 7).await;
         });
     }
 }
